@@ -26,16 +26,13 @@ go test -vet=off -count=1 ./... > /tmp/seed_suite.log 2>&1; SUITE=$?
 git checkout -q -- . ; git clean -fdq
 echo "   demo on clean tree: exit $CLEAN (want 0); demo with change: exit $PATCHED (want !=0); existing suite with change: exit $SUITE (want 0)"
 cd /verif
-git -C /repo diff --quiet || { echo "/repo not clean"; exit 3; }
-git -C /repo apply $SRC/patch.diff
+mkdir -p seeded/$NAME && cp $SRC/patch.diff $SRC/$DEMO_FILE seeded/$NAME/ && cp $SRC/meta.json seeded/$NAME/meta.json
 RESULT=""
 for c in $CHECKS; do
-  bin/vcheck $c --tier quick > /tmp/seed_check_$c.log 2>&1; rc=$?
-  v=$(grep -c '^VIOLATION' /tmp/seed_check_$c.log)
-  echo "   check $c on the changed tree: exit $rc, $v VIOLATION lines; $(grep -m1 'clause:' /tmp/seed_check_$c.log | cut -c1-150)"
-  RESULT="$RESULT $c:exit$rc:$v"
+  out=$(tools/seedcheck.sh $NAME $c | tail -1)
+  echo "   $out"
+  RESULT="$RESULT $(echo "$out" | sed -E 's/.*check (C[0-9]+) exit ([0-9]+), ([0-9]+) VIOLATION.*/\1:exit\2:\3/')"
 done
-git -C /repo checkout -q -- .
 mkdir -p seeded/$NAME && cp $SRC/patch.diff $SRC/$DEMO_FILE seeded/$NAME/
 python3 - <<PY
 import json
